@@ -37,7 +37,7 @@ def run_driver(lines):
 
 
 def model_line(scen):
-    keys = ('id', 'env', 'op', 'ty', 'val', 'handlers', 'name', 'style', 'tys', 'args', 'kwargs', 'cls', 'decls', 'obj', 'set', 'set_only', 'rename', 'frozen', 'deep', 'a', 'b', 'akey', 'bkey', 'explicit_hash', 'eq_opt', 'order_opt')
+    keys = ('id', 'env', 'op', 'ty', 'val', 'handlers', 'name', 'style', 'tys', 'args', 'kwargs', 'cls', 'decls', 'obj', 'set', 'set_only', 'rename', 'frozen', 'deep', 'a', 'b', 'akey', 'bkey', 'explicit_hash', 'eq_opt', 'order_opt', 'ops', 'maxsize', 'keys', 'is_path')
     return json.dumps({k: scen[k] for k in keys if k in scen}, ensure_ascii=False)
 
 
@@ -55,6 +55,17 @@ def sort_lists(j):
         return sorted((sort_lists(x) for x in j), key=lambda x: json.dumps(x, sort_keys=True))
     if isinstance(j, dict):
         return {k: sort_lists(v) for k, v in j.items()}
+    return j
+
+
+def sort_dicts(j):
+    """dict equality ignores item order (sort_keys=True reorders a written mapping)"""
+    if isinstance(j, list):
+        return [sort_dicts(x) for x in j]
+    if isinstance(j, dict):
+        if set(j) == {'d'} and isinstance(j['d'], list):
+            return {'d': sorted((sort_dicts(x) for x in j['d']), key=lambda x: json.dumps(x, sort_keys=True))}
+        return {k: sort_dicts(v) for k, v in j.items()}
     return j
 
 
@@ -77,6 +88,11 @@ def compare_projected(scen, impl_out, model_out, projectfn):
     if scen['op'] in ('roundtrip', 'convert2') and has_set_type(scen):
         # serialised sets come out in hash order (also inside the `actual` of error trees): compare up to list order
         cm, ci = sort_lists(cm), sort_lists(ci)
+    if scen['op'] == 'io':
+        if isinstance(cm, dict) and cm.get('rep') is False:
+            # outside the representable fragment the property (and C19_write_read) says nothing
+            return None
+        cm, ci = sort_dicts(cm), sort_dicts(ci)
     if scen['op'] == 'dictview' and scen.get('set_only'):
         # dict(set_only=True) iterates a set of names: item order is hash order
         srt = lambda o: {'ok': {'d': sorted(o['ok']['d'], key=lambda kv: json.dumps(kv))}} if isinstance(o, dict) and isinstance(o.get('ok'), dict) and 'd' in o['ok'] else o
@@ -106,6 +122,11 @@ def run_scenarios(scens, keep_ctx=False, project_what=None, stats=None):
                 ctx, out = impl.run_process(sc)
                 sc['env'] = {}
                 prepared.append((sc, ctx, out))
+                continue
+            if sc['op'] in ('history', 'lru'):
+                out = impl.run_history(sc) if sc['op'] == 'history' else impl.run_lru(sc)
+                sc['env'] = {}
+                prepared.append((sc, None, out))
                 continue
             ctx = impl.prepare(sc)
             vals = []
